@@ -25,7 +25,7 @@ CHECKS = {
     "C06": ("other", "contracts over the abstract rows for view receivers + materialisation frame + bounded derived-vs-fresh comparison",
             "Proved: row subset of views, column-step compounding, integer column on strided views, materialisation (rows preserved, fresh buffer, source not written), lazy __getitem__ dispatch; the mechanised compositions of C02 / C03 (a 2-D slice selection read back cell by cell, and written through, equals list indexing), also for receivers that are themselves lazy row or column selections (column steps compound). Representation independence under every probe (a newly derived array vs a fresh one) is bounded.", "0, 20, 11/C06"),
     "C07": ("other", "contracts (prefix-sum telescoping, shifted-prefix-sum lemma) + bounded numpy-per-row stand-in",
-            "Proved: cumsum and add/subtract/xor accumulate restart at every row (integer data as mathematical integers / 64-bit words), diff plumbing (row r keeps max(L-n,0) differences of its own cells), index_array for sort. sort, unique, diff values end to end are bounded. One known finding (float accumulate).", "0, 20, 11/C07"),
+            "Proved: cumsum and add/subtract/xor accumulate restart at every row (integer data as mathematical integers / 64-bit words), diff plumbing (row r keeps max(L-n,0) differences of its own cells), index_array for sort; sort(axis=-1) against numpy.lexsort's contract (keys = the receiver's own cells and, as primary key, the row number of every flat position of its own geometry; result gathered through the returned order with the receiver's geometry; fresh and lazily selected receivers). That an order sorted by (row, value) sorts each row in place (a counting argument), unique and diff values end to end are bounded. One known finding (float accumulate).", "0, 20, 11/C07"),
     "C08": ("other", "contracts on structural functions + bounded stand-in",
             "Proved: concatenate(axis=0) for 2 and 3 operands, concatenate(axis=1 / -1) for 2 and 3 operands (the real comprehension over zip of the real row generators run for an arbitrary iteration k: the row handed to the constructor is row k of operand 0, then of operand 1, .. ; exactly n iterations; built by the first operand's class; CPython's zip / comprehension protocol and the constructor from a row list assumed), zeros/ones/empty_like, where, nonzero, ragged_slice window arithmetic, unravel_multi_index, _raw_broadcast (mask broadcast), subset (row r keeps exactly its True-masked cells in order; fold-of-booleans = rank difference and prefix-sum-of-counts lemmas). as_padded_matrix for both sides (cell (r, c) of the (n, longest row) matrix is the row's own cell or the fill value; 2-D index matrix, clamp, gather, scatter of the fill positions, reshape; flat positions r*W+c in factored form). concatenate(axis=1) (a Python loop over rows) is bounded.", "0, 20, 11/C08"),
     "C09": ("other", "contracts (col_counts by three inductions, dtype dispatch) + bounded stand-in with dtype extremes",
